@@ -1072,7 +1072,9 @@ func (e *pegEngine) checkCharClass(r *Run, rule string, report func(string, *ssa
 		member, decided := e.classMember(sm, fn)
 		invV, invKnown := evalBool(sm.St, inv)
 		if !decided {
-			// paths cut short by the loop bound are not complete searches
+			// a complete path (those cut by the loop bound never get here) that neither found the rune in one of the three
+			// lists nor went through all of them: membership was decided by something else
+			probs = append(probs, fmt.Sprintf("the class answers (match=%v) without having found the rune in its characters, ranges or Unicode classes and without having searched all three", okR)+trailOf(sm))
 			continue
 		}
 		if !invKnown {
